@@ -598,6 +598,14 @@ func r136(c *an.Ctx) {
 			if an.CalleeName(x) == "builtin close" && isStreamField(x.Call.Args[0], "serverSend") {
 				closeSend = x
 			}
+			// the assignment as a helper of the package (lock, store, unlock in a function of its own)
+			if g := x.Call.StaticCallee(); g != nil && len(g.Blocks) > 0 && g.Pkg == fn.Pkg {
+				an.Instrs(g, func(in2 ssa.Instruction) {
+					if st, isSt := in2.(*ssa.Store); isSt && isStreamField(st.Addr, "closeErr") {
+						setErr = x
+					}
+				})
+			}
 			if an.CalleeName(x) == "dynamic" && isStreamField(x.Call.Value, "closed") {
 				cancel = x
 			}
